@@ -24,8 +24,8 @@ CLAIMED = {
             'DESIGN.md section 3, C01'),
     'C02': ('exploration',
             'model-based property testing (Hypothesis): generated multi-generation edit histories (write/close/open in the middle) against a reference model',
-            'As C01, but every program contains 1-3 reopen steps (the image is written, closed and the written bytes opened again) with edits before and after each; the API view of the reopened object must equal the reference model after every reopen and after the final write, so untouched content must be carried over unchanged and removed entries must be gone in every namespace.',
-            'Foreign images are not available offline (vendor/*.tar.gz are git-LFS pointers): only images the library wrote are used. Trusts the reference model.',
+            'As C01, but every program contains 1-3 reopen steps (the image is written, closed and the written bytes opened again) with edits before and after each; the API view of the reopened object must equal the reference model after every reopen and after the final write, so untouched content must be carried over unchanged and removed entries must be gone in every namespace. A third of the reopens open a re-laid-out version of the image (file data moved, gaps, arbitrary extents on empty files, version descriptor, declared size too small) and a third an independently re-mastered one (vf/indep/remaster.py: every sector after the descriptors re-assigned in the manner of mkisofs, system-use areas rebuilt with another entry order and other record/continuation splits, El Torito pointers following the moved data).',
+            'The vendored foreign images are not available offline (vendor/*.tar.gz are git-LFS pointers); the re-laid-out and re-mastered images stand in for them and emulate only traits of real mastering programs (the ER continuation area has a sector of its own, as mkisofs writes it). Trusts the reference model.',
             'DESIGN.md section 3, C02'),
     'C05': ('exploration',
             'round-trip property testing (Hypothesis): write -> open -> write -> open -> write over generated images, byte comparison with the modification-date fields masked',
@@ -49,7 +49,7 @@ CLAIMED = {
             'DESIGN.md section 3, C04'),
     'C16': ('exploration',
             'stateful / model-based property testing (Hypothesis): generated stream-operation programs (and a RuleBasedStateMachine) shadowed by io.BytesIO',
-            'Programs of open/read/readinto/readall/seek/tell/close/extract/query ops over 4-8 files (parsed from an image, added but unwritten, shared backing file, one > 4 GiB two-extent file) are interpreted against PyCdlibIO and an io.BytesIO shadow per stream; every return value and position must agree, extraction output must equal the content, and reads may only touch image bytes inside the file being read (read log of the image file).',
+            'Programs of open/read/readinto/readall/seek/tell/close/extract/query ops over 4-8 files (parsed from an image - half of the images without UDF independently re-mastered first -, added but unwritten, shared backing file, one > 4 GiB two-extent file) are interpreted against PyCdlibIO and an io.BytesIO shadow per stream; every return value and position must agree, extraction output must equal the content, and reads may only touch image bytes inside the file being read (read log of the image file).',
             'Negative resulting seek positions, closed streams and boot-info-table files are excluded by construction (documented or unstated behaviour). Single-threaded interleavings only.',
             'DESIGN.md section 3, C16'),
     'C13': ('exploration',
@@ -64,7 +64,7 @@ CLAIMED = {
             'DESIGN.md section 3, C18'),
     'C20': ('exploration',
             'property-based testing (Hypothesis): generated source trees and option sets through the two command-line tools as subprocesses; extracted tree compared with a model, image sniffed independently',
-            'Source trees (colliding names after mangling, Unicode, > 8.3 / 31 / 64 characters, deep nesting, empty files and directories, identical and hash-colliding contents, relative/absolute/dangling symlinks) x -iso-level x -R/-r x -J x -udf x -scan-for-duplicates x boot options x hide/exclude patterns are built with pycdlib-genisoimage and extracted with pycdlib-extract-files per requested view; paths, bytes and symlink targets must match the model of the tree, the ISO9660 view must hold every file once under a legal distinct identifier, and the image must carry exactly the requested extensions (struct-based sniffing).',
+            'Source trees (colliding names after mangling, Unicode, > 8.3 / 31 / 64 characters, deep nesting, empty files and directories, identical and hash-colliding contents incl. copies of the boot image, relative/absolute/dangling symlinks, a directory that fills one sector exactly in the Joliet or ISO9660 view) x -iso-level x -R/-r x -J x -udf x -scan-for-duplicates x boot options x hide/exclude patterns are built with pycdlib-genisoimage and extracted with pycdlib-extract-files per requested view; paths, bytes and symlink targets must match the model of the tree, the ISO9660 view must hold every file once under a legal distinct identifier, and the image must carry exactly the requested extensions (struct-based sniffing).',
             'Only documented option combinations are generated; patterns never start with "-" and never match the boot image.',
             'DESIGN.md section 3, C20'),
     'C08': ('exploration',
@@ -74,7 +74,7 @@ CLAIMED = {
             'DESIGN.md section 3, C08'),
     'C09': ('exploration',
             'property-based testing (Hypothesis) with an independent Joliet decoder as oracle, plus boundary probes for the refusal clause',
-            'Images of generated Joliet histories (levels 1-3, divergent trees, BMP and astral names up to 64 UTF-16 units, removals, reopen) are decoded from the supplementary descriptor alone: tree, names and contents must equal the model, Joliet files must share sectors with their ISO9660 links, the descriptor\'s path tables / "." / ".." / ordering must be valid and the escape sequence must match the level. Single-edit probes with names of 58..70 units check that > 64 units is refused with PyCdlibInvalidInput and that accepted names come back exactly.',
+            'Images of generated Joliet histories (levels 1-3, divergent trees, BMP and astral names up to 64 UTF-16 units, removals, reopen) are decoded from the supplementary descriptor alone: tree, names and contents must equal the model, Joliet files must share sectors with their ISO9660 links, the descriptor\'s path tables / "." / ".." / ordering must be valid and the escape sequence must match the level. Single-edit probes with names of 58..70 units check that > 64 units is refused with PyCdlibInvalidInput and that accepted names come back exactly. In a third of the cases one file is afterwards replaced in place (modify_file_in_place, same number of sectors) in the written image file and the Joliet tree of that file is decoded and compared again.',
             'Names are decoded as UTF-16BE; astral characters count as two units.',
             'DESIGN.md section 3, C09'),
     'C10': ('exploration',
@@ -99,17 +99,17 @@ CLAIMED = {
             'DESIGN.md section 3, C07'),
     'C14': ('fault_enumeration',
             'fault enumeration with property-based placement (Hypothesis): every row of a refusal catalogue (mutator x cause x stage) injected at generated points of generated histories; twin-run byte comparison',
-            'The refusal catalogue (vf/model.py BadCatalogue, 87 rows: 11 late refusals of records that already reserved a Rock Ridge continuation area, and bad/duplicate/over-long name or missing parent in the first, second or third namespace, wrong entry type, missing Rock Ridge name, foreign-namespace arguments, depth, invalid boot parameters with and without a boot info table, duplicate catalog names per namespace, hybrid parameters, wrong object state ...) is enumerated; each refused call is placed at a drawn point of a generated history. The image written right after the refused call must equal the one written right before it, the final image must equal that of the twin run without the refused calls, later edits must behave identically and no write may fail. Evidence lists hits per catalogue row.',
+            'The refusal catalogue (vf/model.py BadCatalogue, 117 rows: 11 late refusals of records that already reserved a Rock Ridge continuation area; 30 rows added after the fourth sensitivity round - a taken Rock Ridge name under fresh other names, empty-string paths per call and namespace, the Joliet-only directory calls, clear_hidden, open on an initialised object, calls without a path, an unrepresentable UDF symlink target; and bad/duplicate/over-long name or missing parent in the first, second or third namespace, wrong entry type, missing Rock Ridge name, foreign-namespace arguments, depth, invalid boot parameters with and without a boot info table, duplicate catalog names per namespace, hybrid parameters, wrong object state ...) is enumerated; each refused call is placed at a drawn point of a generated history. The image written right after the refused call must equal the one written right before it, the final image must equal that of the twin run without the refused calls, later edits must behave identically and no write may fail; finally both runs give everything back (El Torito, every file, symlink and directory, bottom-up) and the images must agree again, so that counters and reservations leaked by a refused call show when what they belong to is released. Evidence lists hits per catalogue row.',
             'A catalogue call that the library accepts is handed to C13 (counted). modify_file_in_place refusals are C17.',
             'DESIGN.md section 3, C14 and appendix A'),
     'C17': ('exploration',
             'property-based testing (Hypothesis): generated images and modification sequences; byte-diff confinement against regions located by independent readers, plus reopen and view comparison',
-            'The final image of a generated program is written to a read/write file object and opened from it; 1-3 modify_file_in_place calls pick a target (file / directory / missing path) and a new length class (0, 1, same, up to and beyond the sector boundary, one sector less). Refusals must leave the file byte-identical; an accepted call must only change the file\'s data sectors, the directory records / UDF file entry of its names and the size/date fields of the descriptors (regions located on the pre-image by the independent ISO9660/UDF readers), the result must be a valid image for the independent reader and reopen with every name of the content showing the new bytes and everything else unchanged.',
+            'The final image of a generated program (in a third of the cases first re-mastered by vf/indep/remaster.py, so that the library modifies an image it did not write) is written to a read/write file object and opened from it; 1-3 modify_file_in_place calls pick a target (file / directory / missing path) and a new length class (0, 1, same, up to and beyond the sector boundary, one sector less). Refusals must leave the file byte-identical; an accepted call must only change the file\'s data sectors, the directory records / UDF file entry of its names and the size/date fields of the descriptors (regions located on the pre-image by the independent ISO9660/UDF readers), the result must be a valid image for the independent reader and reopen with every name of the content showing the new bytes and everything else unchanged.',
             'BytesIO backing file. The modification date field is allowed to change along with the size fields (interpretation).',
             'DESIGN.md section 3, C17'),
     'C15': ('fault_enumeration',
             'structured mutation fuzzing: Hypothesis-driven (quick) and coverage-guided atheris/libFuzzer (thorough) patches of valid base images taken from independent field maps; exception-type and work-bound oracle',
-            'One decoder turns (base image, patch list) into bytes: 56 valid base images from the history engine (all extension combinations, 8 of them with a real boot info table) are truncated at drawn lengths, have fields from the independent readers\' field maps (lengths, extents, counts, tags, pointers - ISO9660, SUSP, path tables, El Torito, UDF, MBR/GPT) replaced by boundary/cyclic/out-of-range/byte-swapped/random values, or bytes flipped. open_fp on the result must return or raise a PyCdlibException subclass; a deterministic work bound on the reads of the image file, RLIMIT_AS and a 30 s alarm decide termination and memory. The thorough tier adds 15 atheris processes feeding the same decoder (and raw splices) with coverage feedback, from empty and seeded corpora. Violations are bucketed by (exception type, innermost repository frame).',
+            'One decoder turns (base image, patch list) into bytes: 56 valid base images from the history engine (all extension combinations, 8 of them with a real boot info table) are truncated at drawn lengths, have fields from the independent readers\' field maps (lengths, extents, counts, tags, pointers - ISO9660, SUSP, path tables, El Torito, UDF, MBR/GPT) replaced by boundary/cyclic/out-of-range/byte-swapped/random values, or bytes flipped; 'pair' cases patch two neighbouring fields of one structure with coordinated values, 'resealed' cases make the tag CRC/checksum of every patched UDF descriptor valid again, 'pointer' cases give a pointer field the value of another pointer of its kind (self-referencing structures). open_fp on the result must return or raise a PyCdlibException subclass; a deterministic work bound on the reads of the image file, RLIMIT_AS and a 30 s alarm decide termination and memory. The thorough tier adds 15 atheris processes feeding the same decoder (and raw splices) with coverage feedback, from empty and seeded corpora. Violations are bucketed by (exception type, innermost repository frame).',
             'Sampling of the byte-string space around valid images; arbitrary random bytes mostly die at the first magic check and are exercised through the raw-splice mode only.',
             'DESIGN.md section 3, C15'),
 }
